@@ -107,6 +107,11 @@ func (ap *AttestationPool) AddAttestation(ctx context.Context, att *phase0.Attes
 		return nil
 	}
 
+	// The aggregation bits are read per committee member below: they must match the committee.
+	if bitLen := att.AggregationBits.BitLen(); bitLen != uint64(len(committee)) {
+		return fmt.Errorf("committee mismatch, bitfield length %d does not match committee size %d", bitLen, len(committee))
+	}
+
 	// aggregates: don't store more than we have to.
 	// Sometimes we find some different ones, keep those, every attester counts.
 	// No aggregation yet, we can put together the best version later.
